@@ -114,12 +114,22 @@ def class_axioms(mentioned=None):
     return [ClassTheory()]
 
 
+_CT_CACHE: dict = {}
+
+
 def class_theory_instances(cls_terms):
     """Ground instances of reflexivity / transitivity + the concrete truth table, for the given terms."""
     consts = {v.get_id(): (p, v) for p, v in _CLS_CONSTS.items()}
-    K = [(p, v) for p, v in _CLS_CONSTS.items()]
+    ids = {t.get_id() for t in cls_terms}
+    # only the named classes that occur in the query (the truth table is transitively closed already)
+    K = [(p, v) for p, v in _CLS_CONSTS.items() if v.get_id() in ids]
     S = [t for t in cls_terms if t.get_id() not in consts]
+    key = (frozenset(v.get_id() for _, v in K), frozenset(t.get_id() for t in S))
+    hit = _CT_CACHE.get(key)
+    if hit is not None:
+        return hit
     out = []
+    _CT_CACHE[key] = out
     table = {}
     for (p, cp), (q, cq) in itertools.product(K, K):
         try:
